@@ -8,6 +8,7 @@ import (
 	"path/filepath"
 	"strconv"
 	"sync"
+	"time"
 
 	bolt "go.etcd.io/bbolt"
 
@@ -102,6 +103,7 @@ func setting(t common.TokenType, consistent bool) config.ColumnEncryptionSetting
 type rig struct {
 	kind   storeKind
 	nosync bool
+	gran   string // access-time granularity configured on the store: "" (default, 24 h) | "0" | "1ns"
 	path   string // BoltDB file
 	db     *bolt.DB
 	ks     ksrig.FullKeyStore
@@ -115,7 +117,31 @@ type rig struct {
 }
 
 func newRig(kind storeKind, ks ksrig.FullKeyStore, nosync bool) (*rig, error) {
-	g := &rig{kind: kind, ks: ks, nosync: nosync}
+	return newRigGran(kind, ks, nosync, "")
+}
+
+// granularities: the access-time granularity settings driven (TokenStorage.SetAccessTimeGranularity). A record whose
+// last access is older than the granularity gets its access time refreshed by Get; with 0 or 1ns that is every Get
+// (BoltDB keeps times in whole seconds: the stored access time is always before "now"), with the default never in a run.
+var granularities = map[string]time.Duration{"0": 0, "1ns": time.Nanosecond}
+
+func granName(gran string) string {
+	if gran == "" {
+		return "24h(default)"
+	}
+	return gran
+}
+
+// cfgName is the store configuration as it appears in signatures: kind, plus the granularity when it is not the default.
+func cfgName(kind storeKind, gran string) string {
+	if gran == "" {
+		return kind.name()
+	}
+	return kind.name() + ",access-granularity=" + gran
+}
+
+func newRigGran(kind storeKind, ks ksrig.FullKeyStore, nosync bool, gran string) (*rig, error) {
+	g := &rig{kind: kind, ks: ks, nosync: nosync, gran: gran}
 	if kind.bolt {
 		g.path = filepath.Join(ksrig.ScratchDir("c10-bolt"), "tokens.db")
 	}
@@ -147,6 +173,12 @@ func (g *rig) open() error {
 			return err
 		}
 		g.store = storage.WrapStorageWithEncryption(g.inner, enc)
+	}
+	if g.gran != "" {
+		// configuration of the store object (set through the wrapper when there is one, as a server would)
+		if err := g.store.SetAccessTimeGranularity(granularities[g.gran]); err != nil {
+			return err
+		}
 	}
 	var err error
 	if g.pseudo, err = pseudonymization.NewPseudoanonymizer(g.store); err != nil {
@@ -338,6 +370,17 @@ func (g *rig) recordCount() (total, disabled int, err error) {
 		return common.TokenContinue, nil
 	})
 	return
+}
+
+// boltTxID is the id of BoltDB's last committed write transaction (0 for memory stores): it grows by one with every
+// write transaction, which is how a Get that wrote the record back is observed.
+func (g *rig) boltTxID() int {
+	if g.db == nil {
+		return 0
+	}
+	id := 0
+	g.db.View(func(tx *bolt.Tx) error { id = tx.ID(); return nil })
+	return id
 }
 
 // boltBuckets iterates the BoltDB file directly: records per context bucket (nil for memory stores).
